@@ -241,7 +241,9 @@ class DPFSLevel3:
         bs = self._block_size
         if self._fp.writable():
             if offset + len(data) > self.size:
-                data = data[:self.size - offset]
+                data = data[:max(self.size - offset, 0)]
+            if not data:
+                return 0
             orig_data_len = len(data)
             starting_block, ending_block = get_block_range(offset, orig_data_len, bs)
             first_block_offset = offset % bs
